@@ -25,6 +25,7 @@ RULE = (
     "when a narrower width is requested), None stays None, beta / parameters kept, width preserved or equal to the request, "
     "result lives in the target namespace. Non-trivial = source namespace != target namespace, or a non-default dtype."
 )
+RULE += " " + ("The grid also holds, for weighted Samples, a selection that carries its parent's evidence (which must survive the conversion) and, for every class, convert - attach the densities - convert histories on one object.")
 ASSUMPTIONS = [
     "jax runs with jax_enable_x64=True (as in the repository's own tests); without it JAX cannot hold float64",
     "kernel packages are harness doubles for the sampler-level part",
